@@ -157,6 +157,8 @@ class World:
         self.sbatch_plan = dict(scn.get("sbatch_fail", {}))   # batch number (str) -> failing attempts
         self.squeue_fail = int(scn.get("squeue_fail", 0))     # failing squeue attempts still to inject
         self.squeue_skip = int(scn.get("squeue_skip", 0))     # ... after this many successful attempts
+        self.squeue_empty = int(scn.get("squeue_empty", 0))   # status queries answered "no jobs" (exit 0) although batches are
+        self.squeue_empty_skip = int(scn.get("squeue_empty_skip", 0))   # active (controller restart) ... after this many
         self.faults_armed = {}  # pid -> dict(op=..., n=...)
         self.steps = 0
 
@@ -192,9 +194,9 @@ class World:
                     data.append(f.read())
             except FileNotFoundError:
                 data.append(None)
-        st = project.read_status(d) or {"sub": "", "cverf": -1, "jverf": -1}
+        st = project.read_status(d) or {"sub": "", "cverf": -1, "jverf": -1, "cver": -1, "jver": -1}
         return {"bytes": data, "sub": st["sub"], "cverf": project._read_int(os.path.join(d, "config_version.txt")),
-                "jverf": project._read_int(os.path.join(d, "job_status_version.txt"))}
+                "jverf": project._read_int(os.path.join(d, "job_status_version.txt")), "cver": st["cver"], "jver": st["jver"]}
 
     def _flush(self, p):
         for evd in p.deferred:
@@ -220,6 +222,8 @@ class World:
                 return
             p.req = req
             self._on_arrive(p, req)
+            if not p.alive:
+                return
             if req["op"] == "exit":
                 p.reap()
                 self._on_exit(p, req["code"], req.get("exc", ""), req.get("tb", ""))
@@ -288,13 +292,17 @@ class World:
             self.ev(e="demote", pid=p.pid, host=p.host, ok=r["ok"], exc=r["exc"], dir=self._dname(r["path"]))
         elif name == "cop_begin":
             p.cop = {"op": r["cop"], "hcver": r["hcver"], "hjver": r["hjver"], "loaded": r["loaded"], "pre": None}
+        elif name == "crash_here":
+            # an operation scripted to die at this point (between two file writes of one update)
+            self.kill_proc(p, why="crash plan")
         elif name == "cop_end":
             c = getattr(p, "cop", None) or {"op": "?", "hcver": -1, "hjver": -1, "loaded": False, "pre": None}
             pre = c["pre"] or self._store_snapshot()
             post = self._store_snapshot()
             wc = c["op"] in ("loadp", "promote", "demote", "cancel", "update")
             self.ev(e="cop", pid=p.pid, host=p.host, op=c["op"], hcver=c["hcver"], hjver=c["hjver"], loaded=c["loaded"],
-                    dcver=pre["cverf"], djver=pre["jverf"], before=pre["sub"], exc=r["exc"], ok=r["ok"],
+                    dcver=pre["cverf"], djver=pre["jverf"], ddcver=pre["cver"], ddjver=pre["jver"], before=pre["sub"],
+                    exc=r["exc"], ok=r["ok"],
                     changed=pre["bytes"] != post["bytes"], wcfg=wc, wjs=c["op"] in ("update", "jsonly"))
             p.cop = None
         elif name == "collected":
@@ -610,6 +618,13 @@ class World:
             self.squeue_fail -= 1
             self.ev(e="squeue", pid=p.pid, ok=False, ans=[])
             return self._reply(p, h=h, rc=1, stdout="", stderr="slurm_load_jobs error: Socket timed out")
+        if self.squeue_empty_skip > 0:
+            self.squeue_empty_skip -= 1
+        elif self.squeue_empty > 0:
+            self.squeue_empty -= 1
+            self.ev(e="fault", pid=p.pid, k=p.label, kind="squeue-empty", at="squeue", b=self._bnum(p.batch))
+            self.ev(e="squeue", pid=p.pid, ok=True, ans=[])
+            return self._reply(p, h=h, rc=0, stdout="", stderr="")
         if "-j" in argv:
             hid = argv[argv.index("-j") + 1]
             b = self.batches.get(hid)
@@ -672,7 +687,7 @@ class World:
             (os.path.basename(p.req["argv"][0]) if p.req.get("argv") else "")
         p.reap(kill=True)
         self.ev(e="kill", pid=p.pid, k=p.label, host=p.host, at=at, why=why, nops=p.nops, nsteps=p.nsteps, b=self._bnum(p.batch),
-                holder=bool(p.label != "run-jobs" and self._is_holder(p)))
+                holder=bool(p.label != "run-jobs" and self._is_holder(p)), spin=bool(getattr(self, "spin_timeout", False)))
         for hd in self.handles.values():
             if hd.get("owner") == p.pid and hd["state"] == "running":
                 hd["state"] = "dead"
@@ -695,7 +710,7 @@ class World:
             if q.alive and q.batch == hid:
                 self.kill_proc(q, why="node " + how)
         b["state"] = {"kill": "KILLED", "timeout": "TIMEOUT", "cancel": "CANCELLED"}[how]
-        self.ev(e="hpc", what=how, id=hid, b=b["b"], active=self._active())
+        self.ev(e="hpc", what=how, id=hid, b=b["b"], active=self._active(), spin=bool(getattr(self, "spin_timeout", False)))
 
     def _on_exit(self, p, code, exc, tb):
         self._flush(p)
@@ -748,7 +763,9 @@ class World:
                     # only sleepers are left: if a sleeper belongs to a node, the node times out
                     p = self.proc(spin[0][1])
                     if p.batch is not None and self.batches[p.batch]["state"] == "RUNNING":
+                        self.spin_timeout = True
                         self.do(("nodekill", p.batch, "timeout"))
+                        self.spin_timeout = False
                     elif p.idle > 200:
                         self.ev(e="hang", pid=p.pid, k=p.label, host=p.host)
                         self.kill_proc(p, why="spin")
